@@ -335,7 +335,9 @@ let () =
     List.iteri (fun idx o ->
       if not !failed then begin
         let f = String.split_on_char ' ' o.text in
-        let parse l = List.filter_map obs_of_string l in
+        (* an observation line the model can never produce (e.g. a raw-bytes mismatch reported by the harness) must not be
+           dropped silently: it becomes an observation no event accepts *)
+        let parse l = List.map (fun x -> match obs_of_string x with Some o -> o | None -> ORet (n_of_int 99)) l in
         let outs = ref o.outs in
         let take_out_int () =
           (* the Interest transmission belonging to the Express that gets the next pid *)
